@@ -2,7 +2,7 @@
     ListingNav.v and followed by Print Assumptions. *)
 From Coq Require Import Ascii String List Bool ZArith NArith.
 From PTBase Require Import Exn PyStr.
-From P Require Import ListingNav Round.
+From P Require Import ListingNav Round NavMore.
 Import ListNotations.
 Open Scope Z_scope.
 
@@ -99,3 +99,76 @@ Theorem nav_seeks_absolute : forall rnd L a b o, observe a = observe b ->
   observe (fst (step rnd L a o)) = observe (fst (step rnd L b o)) /\ snd (step rnd L a o) = snd (step rnd L b o).
 Proof. exact nav_seeks_absolute_step. Qed.
 Print Assumptions nav_seeks_absolute.
+
+(** ---- added in round 2 ---- *)
+
+(** freshness TABLE BY TABLE, for every listing with >= 1 result set: index, time and step are fresh and
+    so is every table all of whose cells are assigned at every result set, whatever the other tables do
+    (on tests/listing/TOUGH2/11 this covers element and connection; generation is the known finding) *)
+Theorem nav_table_is_fresh_if_table_uniform : forall rnd L, lsets L <> [] -> forall k, uniform_table L k -> forall ops,
+  let s := run rnd L (open L) ops in
+  exists f, fresh_at L (idx s) = (f, ONone) /\ idx f = idx s /\ tm f = tm s /\ sp f = sp s /\
+            nth_error (tabs s) k = nth_error (tabs f) k /\ nth_error (tabs s) k <> None.
+Proof. exact nav_fresh_table. Qed.
+Print Assumptions nav_table_is_fresh_if_table_uniform.
+
+(** first() / last() position at the first / last result set and read it *)
+Theorem first_last_position : forall rnd L s, lsets L <> [] ->
+  (exists s' r, step rnd L s First = (s', ONone) /\ idx s' = 0 /\
+     nth_error (lsets L) 0 = Some r /\ tm s' = rtime r /\ sp s' = rstep r /\ tabs s' = ovr_tabs (tabs s) (rtabs r)) /\
+  (exists s' r, step rnd L s Last = (s', ONone) /\ idx s' = nsets L - 1 /\
+     nth_error (lsets L) (Z.to_nat (nsets L - 1)) = Some r /\ tm s' = rtime r /\ sp s' = rstep r /\ tabs s' = ovr_tabs (tabs s) (rtabs r)).
+Proof. exact first_last_spec. Qed.
+Print Assumptions first_last_position.
+
+(** extracting a history changes nothing that can be observed and raises nothing *)
+Theorem history_changes_nothing : forall rnd L s,
+  observe (fst (step rnd L s History)) = observe s /\ snd (step rnd L s History) = ONone.
+Proof. exact history_keeps_state. Qed.
+Print Assumptions history_changes_nothing.
+
+(** next / prev on every state reachable by navigation from a freshly opened listing *)
+Theorem next_prev_bounds_reachable : forall rnd L, lsets L <> [] -> forall ops, let s := run rnd L (open L) ops in
+  (exists s' b, step rnd L s Next = (s', OBool b) /\ b = (idx s <? nsets L - 1) /\
+     idx s' = (if b then idx s + 1 else idx s) /\ (b = false -> s' = s) /\ 0 <= idx s' < nsets L) /\
+  (exists s' b, step rnd L s Prev = (s', OBool b) /\ b = (0 <? idx s) /\
+     idx s' = (if b then idx s - 1 else idx s) /\ (b = false -> s' = s) /\ 0 <= idx s' < nsets L).
+Proof. exact next_prev_reachable. Qed.
+Print Assumptions next_prev_bounds_reachable.
+
+(** a time / step before the first value acts as first(), after the last value as last() (no order assumed) *)
+Theorem set_time_outside_range : forall rnd L s t t0, hd_error (times L) = Some t0 ->
+  (t < t0 -> step rnd L s (SetTime t) = step rnd L s First) /\
+  (t0 <= t -> last (times L) t0 < t -> step rnd L s (SetTime t) = step rnd L s Last).
+Proof. exact set_time_outside. Qed.
+Print Assumptions set_time_outside_range.
+Theorem set_step_outside_range : forall rnd L s k k0, hd_error (steps L) = Some k0 ->
+  (k < k0 -> step rnd L s (SetStep k) = step rnd L s First) /\
+  (k0 <= k -> last (steps L) k0 < k -> step rnd L s (SetStep k) = step rnd L s Last).
+Proof. exact set_step_outside. Qed.
+Print Assumptions set_step_outside_range.
+
+(** an exact hit: with strictly increasing values, setting the time (step) printed for result set j
+    selects j -- for any monotone rounding that maps only 0 to 0; float64 subtraction is one *)
+Theorem set_time_exact_hit : forall rnd L s t j,
+  (forall a b, 0 <= a <= b -> rnd a <= rnd b) -> rnd 0 = 0 -> (forall a, 0 < a -> 0 < rnd a) ->
+  sorted_lt (times L) -> nth_error (times L) j = Some t ->
+  exists s', step rnd L s (SetTime t) = (s', ONone) /\ idx s' = Z.of_nat j.
+Proof. exact set_time_exact. Qed.
+Print Assumptions set_time_exact_hit.
+Theorem round53_zero_only_at_zero : round53 0 = 0 /\ forall a, 0 < a -> 0 < round53 a.
+Proof. exact (conj round53_zero round53_pos). Qed.
+Print Assumptions round53_zero_only_at_zero.
+Theorem set_step_exact_hit : forall rnd L s k j, sorted_lt (steps L) -> nth_error (steps L) j = Some k ->
+  exists s', step rnd L s (SetStep k) = (s', ONone) /\ idx s' = Z.of_nat j.
+Proof. exact set_step_exact. Qed.
+Print Assumptions set_step_exact_hit.
+
+(** the observation the correspondence driver prints for the k-th action of a sequence is the outcome of
+    that action and the state [run] reaches after the first k+1 actions: the theorems above, stated
+    about [run], speak about exactly what is compared with the real reader *)
+Theorem trace_is_run : forall rnd L ops s k o, nth_error ops k = Some o ->
+  nth_error (trace rnd L s ops) k =
+  Some (snd (step rnd L (run rnd L s (firstn k ops)) o), run rnd L s (firstn (S k) ops)).
+Proof. exact trace_nth. Qed.
+Print Assumptions trace_is_run.
